@@ -21,4 +21,19 @@ PROPS = {
         "trusted": COMMON_TRUST + ["Go channel/goroutine runtime (the channel is modelled as a rendezvous)"],
         "assumptions": ["unbuffered channel modelled as rendezvous; goroutine exit observed by runtime.NumGoroutine"],
     },
+    "C07": {
+        "suites": ["dispatch"],
+        "level": "proof",
+        "technique": "Lean 4 proof (refinement of the dispatcher to a last-writer-wins map over all registration histories; prefix rule = lexer rule) + regenerated init-registration facts decided by `decide` + Go/Lean correspondence with recording stub handlers",
+        "claim": "Kernel-checked for ALL hashes, passwords and registration histories: crypt.Check's model refines a last-writer-wins map keyed by the statement's prefix rule, "
+                 "passes hash/password through unchanged, returns ErrHash without a call exactly for ill-formed or unregistered prefixes, registering one prefix leaves others untouched, "
+                 "the dispatcher's prefix equals the parse tree's prefix (and fails exactly when the lexer fails); every documented Prefix* constant is registered in its package's init "
+                 "(facts regenerated from the source). crypt.go's 15-line Check is hand-modelled and tied by exhaustive small-scope runs with recording stubs.",
+        "note": "Trusted: sync.Map as an atomic map; gogen's extraction of init registrations; correspondence is differential.",
+        "rule": "dispatch: 15 documented prefixes probed through the real registry; then recording stubs: every string up to length 6 (quick) / 8 (thorough) over {$ , _ a b} (exhaustive), "
+                "every registration history up to length 3 (quick) / 4 (thorough) over 6 prefixes incl. re-registration, '_', '' and a built-in prefix, probing all 6 after each step; random strings/histories; "
+                "non-trivial/distinct = distinct (outcome kind, handler, length) classes and distinct histories",
+        "trusted": COMMON_TRUST + ["sync.Map modelled as an atomic last-writer-wins map"],
+        "assumptions": ["registry histories are cumulative within the harness process; fresh prefix identifiers make each history start from an unregistered state"],
+    },
 }
